@@ -3,6 +3,8 @@ import FqModel.Recover2
 import Proofs.C06
 import Proofs.C06DProg
 import FqModel.Gen.DecoderSites
+import FqModel.ReadChunks
+import Proofs.C06Chunks
 /-!
   C06 — "no input makes a decoder crash fq".  Claimed PARTIAL (manifest category `other`).
 
@@ -25,6 +27,23 @@ import FqModel.Gen.DecoderSites
       `bits_huge_faults`, `bytesRange_huge_faults`, `alignBits_zero_faults`, `core_old_not_recoverable` — the five
       calls that were runtime faults (makeslice / divide by zero) — and `core_fixed_witnesses`: they are IOErrors now;
       `bytesRange_outside_buffer` for the old "zero bytes, no error" quirk (edf89c74).
+
+    * READ-CHUNK dimension (FqModel/ReadChunks.lean: the stream-transforming io.Readers decoders read through, one
+      `Read(p)` call after the other with the state the reader value carries between them):
+      `nal_read_total` — nalUnescapeReader.Read (format/mpeg/shared.go:94-113, used by avc_nalu / hevc_nalu and
+      everything that nests them) indexes inside `p` for EVERY destination size, every amount the inner reader
+      delivered (the io.Reader contract n ≤ len p is the only hypothesis) and every byte content, over any number of
+      Reads; `nal_read_count`; `nal_unescape_chunk_independent` / `nal_unescape_same_for_every_chunking` /
+      `nal_unescape_is_rewrite` — the concatenated output does not depend on where the Reads cut the payload
+      (a 00 00 | 03 split included) and is the rewrite 00 00 03 → 00 00; `nal_lookahead_lt_total`,
+      `nal_seeded_safe_unless_full`, `nal_seeded_guard_faults`, `nal_seeded_guard_faults_every_size` — a lookahead
+      `p[i+1]` is safe under the guard `i+1 < rn`, and under `i+1 <= rn` (seeded change S5-C06-1) faults exactly when
+      a Read FILLS its destination and ends in 00 00 03, for every destination size ≥ 3: a fault that only inputs with
+      the pattern on a read-chunk boundary reach; `unsync_read_total`, `unsync_is_per_chunk`,
+      `unsync_chunk_independent_if_carried`, `unsync_not_chunk_independent` — the ID3v2 unsynchronisation reader
+      (format/id3/id3v2.go:196-218) never faults either, but, having a VALUE receiver, forgets `lastFF` between
+      Reads: ff | 00 split over two Reads keeps the 00 (a correctness defect of fq outside C06, kept as a witness);
+      `bitflip_read_total`, `bitflip_needs_contract` — bzip2's bitFlipReader.Read (format/bzip2/bzip2.go:44-50).
 
   What is NOT proved (hypothesis `OnlyRecoverable f` for the 132 real DecodeFns — their own index
   arithmetic, map lookups, type assertions and allocations are ≈ 60 k lines of Go that are not modelled):
@@ -394,5 +413,148 @@ example : SiteFreeIsDProg (fun f => if f = "vp9_cfm" then vp9Prog.toDecoder true
   · exact ⟨vp9Prog, true, fun x => by simp [hf]⟩
   · exact ⟨.done 0, false, fun x => by simp [hf]⟩
 example : vp9Prog.toDecoder true ⟨[1, 200, 7], false⟩ = .panic .ioError := by decide +kernel
+
+/-! ### stream-transforming readers inside decoders, one `Read(p)` after the other (FqModel/ReadChunks.lean) -/
+
+section ReadChunks
+open FqModel.ReadChunks Proofs.C06Chunks
+
+/-- the io.Reader contract of the INNER reader, the only hypothesis: every call delivered at most `len p` bytes -/
+def ReadContract (calls : List ReadCall) : Prop := ∀ c ∈ calls, c.bs.length ≤ c.plen
+
+/-- the payload: what the inner reader delivered over all the calls -/
+def payload (calls : List ReadCall) : List Nat := calls.flatMap (·.bs)
+
+/-- nalUnescapeReader.Read never indexes out of range and never returns a count its consumer faults on:
+    every number of Reads, every destination size, every chunking of the payload, every byte content,
+    every state the reader may be in when the copy starts -/
+theorem nal_read_total (st : NalSt) (calls : List ReadCall) (h : ReadContract calls) :
+    ∃ st' out, nalReads .none st calls = .ok (st', out) := by
+  rw [nalReads_none calls st h]; exact ⟨_, _, rfl⟩
+
+/-- one Read: the count returned is exactly the number of bytes left in `p[0:n]`, at most what was delivered -/
+theorem nal_read_count (c : ReadCall) (st : NalSt) (h : c.bs.length ≤ c.plen) :
+    ∃ st' out, nalRead .none c st = .ok ((out.length : Int), st', out) ∧ out.length ≤ c.bs.length := by
+  rw [nalRead_none c st h]
+  exact ⟨_, _, rfl, by have := nalSpec_length st c.bs; omega⟩
+
+/-- chunk independence: the bytes the consumer appended over all the Reads, and the state left in the reader, are
+    those of the specification run ONCE over the whole payload -/
+theorem nal_unescape_chunk_independent (st : NalSt) (calls : List ReadCall) (h : ReadContract calls) :
+    nalReads .none st calls = .ok (nalFinalSt st (payload calls), nalSpec st (payload calls)) :=
+  nalReads_none calls st h
+
+/-- … so two ways of cutting the same payload (other destination sizes, other short reads, a 00 00 03 cut
+    anywhere) give the same result -/
+theorem nal_unescape_same_for_every_chunking (st : NalSt) (calls₁ calls₂ : List ReadCall)
+    (h₁ : ReadContract calls₁) (h₂ : ReadContract calls₂) (hp : payload calls₁ = payload calls₂) :
+    nalReads .none st calls₁ = nalReads .none st calls₂ := by
+  rw [nal_unescape_chunk_independent st calls₁ h₁, nal_unescape_chunk_independent st calls₂ h₂, hp]
+
+/-- … and from a fresh reader it is the rewrite "every 00 00 03 loses its 03, left to right" of the payload -/
+theorem nal_unescape_is_rewrite (calls : List ReadCall) (h : ReadContract calls) :
+    ∃ st', nalReads .none ⟨false, false⟩ calls = .ok (st', unescape (payload calls)) := by
+  rw [nal_unescape_chunk_independent _ calls h, (nalSpec_unescape_all (payload calls)).1 false]
+  exact ⟨_, rfl⟩
+
+/-- the split cases by evaluation: 00 00 | 03 xx, 00 | 00 03 | xx with one-byte destinations, a 03 that is the
+    last byte of the payload, and 00 00 00 03 -/
+theorem nal_split_escape_cases :
+    nalReads .none ⟨false, false⟩ [⟨2, [0, 0], []⟩, ⟨2, [3, 1], []⟩] = .ok (⟨false, false⟩, [0, 0, 1]) ∧
+    nalReads .none ⟨false, false⟩ [⟨1, [0], []⟩, ⟨1, [0], []⟩, ⟨1, [3], []⟩, ⟨1, [1], []⟩] = .ok (⟨false, false⟩, [0, 0, 1]) ∧
+    nalReads .none ⟨false, false⟩ [⟨4, [7, 0, 0, 3], []⟩] = .ok (⟨false, false⟩, [7, 0, 0]) ∧
+    nalReads .none ⟨false, false⟩ [⟨3, [0, 0, 0], []⟩, ⟨5, [3, 3], [9, 9, 9]⟩] = .ok (⟨false, false⟩, [0, 0, 0, 3]) := by
+  decide
+
+/-- a variant WITH a lookahead at the byte after 00 00 03, guarded by `i+1 < rn`, is total as well -/
+theorem nal_lookahead_lt_total (st : NalSt) (calls : List ReadCall) (h : ReadContract calls) :
+    ∃ st' out, nalReads .lt st calls = .ok (st', out) := by
+  obtain ⟨st', out, e, _⟩ := nalReads_look_ok .lt calls st h (fun hl => by cases hl)
+  exact ⟨st', out, e⟩
+
+/-- the seeded guard `i+1 <= rn` (S5-C06-1) is harmless as long as no Read fills its destination — which is why
+    no input whose 00 00 03 lies inside a chunk reaches the fault -/
+theorem nal_seeded_safe_unless_full (st : NalSt) (calls : List ReadCall) (h : ∀ c ∈ calls, c.bs.length < c.plen) :
+    ∃ st' out, nalReads .le st calls = .ok (st', out) := by
+  obtain ⟨st', out, e, _⟩ := nalReads_look_ok .le calls st (fun c hc => Nat.le_of_lt (h c hc)) (fun _ => h)
+  exact ⟨st', out, e⟩
+
+/-- … and faults when one does: witness (4-byte destination filled by 01 00 00 03), on which the code as it is and
+    the `<` guard return 3 bytes -/
+theorem nal_seeded_guard_faults :
+    ReadContract [⟨4, [1, 0, 0, 3], []⟩] ∧
+    nalReads .le ⟨false, false⟩ [⟨4, [1, 0, 0, 3], []⟩] = .panic idxFault ∧
+    nalReads .lt ⟨false, false⟩ [⟨4, [1, 0, 0, 3], []⟩] = .ok (⟨false, false⟩, [1, 0, 0]) ∧
+    nalReads .none ⟨false, false⟩ [⟨4, [1, 0, 0, 3], []⟩] = .ok (⟨false, false⟩, [1, 0, 0]) ∧
+    -- the same bytes with room behind them: the seeded code reads the stale byte (here 9 > 3: the 03 stays)
+    nalReads .le ⟨false, false⟩ [⟨5, [1, 0, 0, 3], [9]⟩] = .ok (⟨false, true⟩, [1, 0, 0, 3]) := by
+  refine ⟨fun c hc => ?_, by decide, by decide, by decide, by decide⟩
+  simp at hc; subst hc; decide
+
+/-- at EVERY destination size ≥ 3 (512, 1024, … as bytes.Buffer.ReadFrom passes them, or any other), from every
+    reader state, whatever the filler: a Read that fills `p` and ends in 00 00 03 indexes `p[len p]` -/
+theorem nal_seeded_guard_faults_every_size (plen f : Nat) (h3 : 3 ≤ plen) (hf : f ≠ 3) (st : NalSt) (stale : List Nat) :
+    nalRead .le ⟨plen, List.replicate (plen - 3) f ++ [0, 0, 3], stale⟩ st = .panic idxFault := by
+  unfold nalRead
+  have hlen : (List.replicate (plen - 3) f ++ [0, 0, 3]).length = plen := by simp; omega
+  simp only [hlen]
+  rw [goSliceTo_ok (Nat.le_refl _), obind_ok]
+  exact nalLoop_le_faults plen stale f hf (plen - 3) 0 0 _ st (Nat.le_refl _) (by omega)
+
+/-- the schedules the harness drives (destination sizes × amounts delivered) always satisfy the contract, so
+    every `rd` case of the correspondence run lies inside the theorems above -/
+theorem schedule_in_contract (stale : Nat) (input : List Nat) (sched : List (Nat × Nat)) :
+    ReadContract (schedule stale input sched) :=
+  schedule_contract stale sched input
+
+/-- unsyncReader.Read (ID3v2): never faults, whether or not the state survives a call … -/
+theorem unsync_read_total (carry ff : Bool) (calls : List ReadCall) (h : ReadContract calls) :
+    ∃ out, unsyncReads carry ff calls = .ok out :=
+  ⟨_, unsyncReads_ok carry calls ff h⟩
+
+/-- … computing the specification of every chunk on its own … -/
+theorem unsync_is_per_chunk (carry ff : Bool) (calls : List ReadCall) (h : ReadContract calls) :
+    unsyncReads carry ff calls = .ok (unsyncChunked carry ff calls) :=
+  unsyncReads_ok carry calls ff h
+
+/-- … which is the specification of the whole payload IF the state were carried (pointer receiver) … -/
+theorem unsync_chunk_independent_if_carried (ff : Bool) (calls : List ReadCall) (h : ReadContract calls) :
+    unsyncReads true ff calls = .ok (unsyncSpec ff (payload calls)) := by
+  rw [unsyncReads_ok true calls ff h, unsyncChunked_carry]; rfl
+
+/-- … but the code as it is (value receiver, `unsyncCarriesState = false`) is NOT chunk independent: ff 00 in one
+    Read loses the 00, ff | 00 over two Reads keeps it.  Replayed on fq: an ID3v2.4 frame with the unsync flag and
+    ff 00 at data offsets 511/512 decodes to 600 bytes instead of 599.  Not a runtime fault: outside C06. -/
+theorem unsync_not_chunk_independent :
+    unsyncCarriesState = false ∧
+    payload [⟨2, [255, 0], []⟩] = payload [⟨1, [255], []⟩, ⟨1, [0], []⟩] ∧
+    unsyncReads unsyncCarriesState false [⟨2, [255, 0], []⟩] = .ok [255] ∧
+    unsyncReads unsyncCarriesState false [⟨1, [255], []⟩, ⟨1, [0], []⟩] = .ok [255, 0] := by
+  decide
+
+/-- bzip2's bitFlipReader.Read: in range for every call inside the contract; it returns the count unchanged and the
+    bit-reversed bytes (and, having no `p[0:n]`, would fault at `p[len p]` on a count beyond the destination) -/
+theorem bitflip_read_total (c : ReadCall) (h : c.bs.length ≤ c.plen) :
+    bitflipRead c = .ok ((c.bs.length : Int), c.bs.map reverse8) := by
+  unfold bitflipRead
+  rw [bitflipLoop_ok c.plen c.bs 0 (by omega)]; rfl
+
+theorem bitflip_needs_contract : bitflipRead ⟨2, [1, 2, 3], []⟩ = .panic idxFault ∧
+    bitflipRead ⟨3, [1, 128, 165], []⟩ = .ok (3, [128, 1, 165]) := by decide
+
+/-- non-vacuity: contracts that hold for non-trivial schedules (short reads, a full read, an empty read) -/
+example : ReadContract [⟨512, List.replicate 509 17 ++ [0, 0, 3], []⟩, ⟨515, [1, 2, 3], List.replicate 512 0⟩, ⟨4, [], [1, 2, 3, 4]⟩] := by
+  intro c hc
+  simp only [List.mem_cons, List.not_mem_nil, or_false] at hc
+  rcases hc with rfl | rfl | rfl
+  · simp only [List.length_append, List.length_replicate]; decide
+  · decide
+  · decide
+example : ∀ c ∈ [(⟨5, [1, 0, 0, 3], [9]⟩ : ReadCall)], c.bs.length < c.plen := by
+  intro c hc; simp at hc; subst hc; decide
+example : (3 : Nat) ≤ 512 ∧ (17 : Nat) ≠ 3 := by decide
+example : payload [⟨2, [0, 0], []⟩, ⟨2, [3, 1], []⟩] = payload [⟨4, [0, 0, 3, 1], []⟩] := by decide
+
+end ReadChunks
 
 end Props.C06
